@@ -57,7 +57,13 @@ impl ProbeEnv {
     /// Build the probe package (offline) and locate the rlibs. Any failure here is a
     /// harness problem (exit 2), never a violation.
     pub fn prepare(harness_dir: &Path, work_name: &str) -> Result<ProbeEnv, String> {
-        let pkg = harness_dir.join("probe_pkg");
+        Self::prepare_pkg(harness_dir, "probe_pkg", work_name, &["ruint", "proptest", "arbitrary", "quickcheck", "rand_08", "rand_09", "num_traits"])
+    }
+
+    /// The same for another package directory next to `probe_pkg` (another feature configuration
+    /// of ruint); `required` names the externs that must be found.
+    pub fn prepare_pkg(harness_dir: &Path, pkg_name: &str, work_name: &str, required: &[&str]) -> Result<ProbeEnv, String> {
+        let pkg = harness_dir.join(pkg_name);
         let out = Command::new("cargo")
             .args(["build", "--message-format=json"])
             .current_dir(&pkg)
@@ -67,7 +73,7 @@ impl ProbeEnv {
             .map_err(|e| format!("cannot run cargo: {e}"))?;
         if !out.status.success() {
             let err = String::from_utf8_lossy(&out.stderr);
-            return Err(format!("probe_pkg build failed: {}", &err[err.len().saturating_sub(3000)..]));
+            return Err(format!("{pkg_name} build failed: {}", &err[err.len().saturating_sub(3000)..]));
         }
         let mut externs = BTreeMap::new();
         let mut deps_dir = None;
@@ -99,8 +105,8 @@ impl ProbeEnv {
             externs.insert(key.to_string(), p);
         }
         let deps_dir = deps_dir.ok_or("ruint rlib not found in cargo output")?;
-        for k in ["ruint", "proptest", "arbitrary", "quickcheck", "rand_08", "rand_09", "num_traits"] {
-            if !externs.contains_key(k) {
+        for k in required {
+            if !externs.contains_key(*k) {
                 return Err(format!("extern {k} not found in cargo output"));
             }
         }
